@@ -467,8 +467,8 @@ def py_stmts(stmts, ind):
         elif k == "inner":
             L.append(f"{p}{s['x']} = {s['a']}.inner_product({s['b']})")
         elif k == "call":
-            kw = "".join(f", {n}={v}" for n, v in s.get("kwargs", []))
-            L.append(f"{p}{s['x']} = {s['f']}({', '.join(s['args'])}{kw})")
+            parts = list(s["args"]) + [f"{n}={v}" for n, v in s.get("kwargs", [])]
+            L.append(f"{p}{s['x']} = {s['f']}({', '.join(parts)})")
         elif k == "def":
             ps = s["params"]
             if s["form"] == "plain":
